@@ -10,6 +10,7 @@ import SkNet.Lemmas.HeatValues
 import SkNet.Lemmas.HeatHarmonic
 import SkNet.Lemmas.HeatConverge
 import SkNet.Lemmas.HeatExist
+import SkNet.Lemmas.HeatEquiv
 
 namespace SkNet.C14
 open SkNet SkNet.Heat SkNet.HeatSpec
@@ -779,5 +780,87 @@ theorem model_meets_spec_maxp (algo : Algo) (nRow nCol nnz : Nat) (B : Nat → N
   exact ⟨(spec_maxPrinciple_iff lo hi _).2 tol htol h1,
     fun r hr => (spec_maxPrinciple_iff lo hi _).2 tol htol (h2 r hr),
     fun c hc => (spec_maxPrinciple_iff lo hi _).2 tol htol (h3 c hc)⟩
+
+/-! ## renumbering the nodes (the C02 clause for Diffusion and Dirichlet) -/
+
+/-- **diffusion_equivariant**. For every `n`, every permutation `π` of `{0..n-1}` (pair of inverse maps), every
+graph, every seeds vector, `init`, damping factor and **every** `n_iter`: `Diffusion` on the renumbered graph
+(`A' i j = A (πinv i) (πinv j)`) with the renumbered seeds returns the renumbered values — errors included — i.e.
+`values'(π v) = values(v)` for every node `v`. (Induction on the iteration; one step is a row-normalised
+matrix–vector product whose sums run over the same multiset.) -/
+theorem diffusion_equivariant (p : Prepared) (π πinv : Nat → Nat) (hp : WL.IsPerm p.n π πinv)
+    (hlen : p.seeds.length = p.n) (init : Option Rat) (k : Nat) (α : Rat) :
+    fitVector .diffusion (relabelPrepared πinv p) init k α =
+      (fitVector .diffusion p init k α).map (relabelVec p.n πinv) ∧
+    ∀ v, fitVector .diffusion p init k α = .ok v →
+      ∃ v', fitVector .diffusion (relabelPrepared πinv p) init k α = .ok v' ∧ v'.length = p.n ∧
+        ∀ u, u < p.n → v'.getD (π u) 0 = v.getD u 0 := by
+  have h := fitVector_relabel .diffusion p hp hlen init k α
+  refine ⟨h, fun v hv => ⟨relabelVec p.n πinv v, by rw [h, hv]; rfl, by simp, fun u hu => relabelVec_at hp v hu⟩⟩
+
+/-- **dirichlet_equivariant**: the same for `Dirichlet` (boundary re-imposed after every round), every `n_iter`. -/
+theorem dirichlet_equivariant (p : Prepared) (π πinv : Nat → Nat) (hp : WL.IsPerm p.n π πinv)
+    (hlen : p.seeds.length = p.n) (init : Option Rat) (k : Nat) (α : Rat) :
+    fitVector .dirichlet (relabelPrepared πinv p) init k α =
+      (fitVector .dirichlet p init k α).map (relabelVec p.n πinv) ∧
+    ∀ v, fitVector .dirichlet p init k α = .ok v →
+      ∃ v', fitVector .dirichlet (relabelPrepared πinv p) init k α = .ok v' ∧ v'.length = p.n ∧
+        ∀ u, u < p.n → v'.getD (π u) 0 = v.getD u 0 := by
+  have h := fitVector_relabel .dirichlet p hp hlen init k α
+  refine ⟨h, fun v hv => ⟨relabelVec p.n πinv v, by rw [h, hv]; rfl, by simp, fun u hu => relabelVec_at hp v hu⟩⟩
+
+/-- **fit_equivariant (adjacency matrix, temperatures as a vector)**: at the level of `fit`, for both estimators:
+the renumbered matrix with the renumbered vector gives `values_` renumbered (and the same error otherwise). -/
+theorem fit_equivariant_array (algo : Algo) (n nnz : Nat) (B : Nat → Nat → Rat) (l : List Rat) (init : Option Rat)
+    (nIter : Int) (α : Rat) (π πinv : Nat → Nat) (hp : WL.IsPerm n π πinv) (hl : l.length = n) :
+    fit algo n n nnz (relabelMat πinv B) { values := .arr (relabelVec n πinv l), init := init } nIter α =
+      (fit algo n n nnz B { values := .arr l, init := init } nIter α).map
+        fun o => ⟨relabelVec n πinv o.values, none, none⟩ := by
+  unfold fit
+  by_cases hk : nIter ≤ 0
+  · simp [hk, Except.map]
+  · simp only [hk, if_false]
+    by_cases hnnz : nnz = 0
+    · simp [getAdjacencyValues, hnnz, Except.map]
+    · have e1 : getAdjacencyValues n n nnz B { values := .arr l, init := init } = .ok ⟨n, B, l, false⟩ := by
+        simp [getAdjacencyValues, hnnz, Values.isNone, getValues, hl]
+      have e2 : getAdjacencyValues n n nnz (relabelMat πinv B) { values := .arr (relabelVec n πinv l), init := init }
+          = .ok (relabelPrepared πinv ⟨n, B, l, false⟩) := by
+        simp [getAdjacencyValues, hnnz, Values.isNone, getValues, relabelPrepared]
+      rw [e1, e2]
+      simp only
+      rw [fitVector_relabel algo ⟨n, B, l, false⟩ hp hl]
+      cases fitVector algo ⟨n, B, l, false⟩ init nIter.toNat α with
+      | error e => simp [Except.map]
+      | ok v => simp [Except.map, splitVars, relabelPrepared]
+
+/-- **The harmonic limit is equivariant too**: if `h` is the harmonic function of a problem in which every node
+reaches a seed and `h'` is harmonic for the renumbered problem, then `h'(π v) = h(v)` for every node `v`; and the
+renumbered `h` *is* harmonic for the renumbered problem. -/
+theorem harmonic_limit_equivariant (n : Nat) (w : Nat → Nat → Rat) (seed : Nat → Bool) (temp h h' : Nat → Rat)
+    (π πinv : Nat → Nat) (hp : WL.IsPerm n π πinv)
+    (hw : ∀ i j, i < n → j < n → 0 ≤ w i j)
+    (hreach : ∀ i, i < n → ∃ t, ReachesSeed n w seed t i)
+    (H : IsHarmonic n w seed temp h) :
+    IsHarmonic n (relabelMat πinv w) (fun i => seed (πinv i)) (fun i => temp (πinv i)) (fun i => h (πinv i)) ∧
+    (IsHarmonic n (relabelMat πinv w) (fun i => seed (πinv i)) (fun i => temp (πinv i)) h' →
+      ∀ v, v < n → h' (π v) = h v) :=
+  ⟨isHarmonic_relabel hp H, fun H' v hv =>
+    Heat.harmonic_unique_of_reach hw hreach (isHarmonic_pullback hp H') H v hv⟩
+
+/-- Non-vacuity: the rotation `v ↦ v+1 mod 3` on the weighted path 0 – 1 – 2 with seeds `[0, -1, 1]`: two Dirichlet
+rounds and three Diffusion rounds on the renumbered problem return the renumbered values. -/
+theorem rot3_isPerm : WL.IsPerm 3 (fun i => (i + 1) % 3) (fun i => (i + 2) % 3) := by
+  refine ⟨fun i hi => Nat.mod_lt _ (by omega), fun i hi => Nat.mod_lt _ (by omega), fun i hi => ?_, fun i hi => ?_⟩ <;>
+  · have : i = 0 ∨ i = 1 ∨ i = 2 := by omega
+    rcases this with rfl | rfl | rfl <;> rfl
+
+example : relabelVec 3 (fun i => (i + 2) % 3) [0, -1, 1] = [1, 0, -1] := by decide +kernel
+example : (fitVector .dirichlet (relabelPrepared (fun i => (i + 2) % 3) ⟨3, pathW, [0, -1, 1], false⟩) none 2 0).toOption
+    = some [1, 0, 3/4] ∧
+    (fitVector .dirichlet ⟨3, pathW, [0, -1, 1], false⟩ none 2 0).toOption = some [0, 3/4, 1] := by decide +kernel
+example : (fitVector .diffusion (relabelPrepared (fun i => (i + 2) % 3) ⟨3, pathW, [0, -1, 1], false⟩) none 3 (1/2)).toOption
+    = (fitVector .diffusion ⟨3, pathW, [0, -1, 1], false⟩ none 3 (1/2)).toOption.map
+        (relabelVec 3 (fun i => (i + 2) % 3)) := by decide +kernel
 
 end SkNet.C14
